@@ -29,6 +29,22 @@ def run(ctx):
         if i % 2:
             af.with_frontends(sc, ctx.seed * 17 + i)
     scs += sims
+    # near-miss passwords through every frontend: what reaches the store is what the client sent (argon2id: exact bytes; scrypt:
+    # a NUL followed by other bytes is not key-equivalent)
+    P1, P2 = af.PASSWORDS["p1"], af.PASSWORDS["p2"]
+    near = dict(af.PASSWORDS, n1=P1 + "\x00", n2=P1 + "\x00zz", n3=P1[:-1], n4=P1 + " ", n5=P1.upper(), n6=P2 + "\x00zz", n7=P2 + "\n", n8=" " + P2)
+    steps, i = [{"t": "token"}], 0
+    for via in ("sasl", "ldap", "basic", "http", "api"):
+        for u, tags in (("u1", ("n1", "n2", "n3", "n4", "n5", "p1")), ("u2", ("n6", "n7", "n8", "p2"))):
+            for tg in tags:
+                if via in ("basic", "http") and "\x00" in near[tg] and via == "basic":
+                    continue
+                i += 1
+                steps.append({"t": "send", "c": "m%d" % i, "k": "auth", "u": u, "p": tg, "a": False, "via": via})
+    steps += [{"t": "sleep", "n": 50}, {"t": "free"}]
+    scs.append({"name": "near-miss-frontends", "mode": "", "default": 2, "passwords": near, "steps": steps, "gated": False, "seed": 1,
+                "frontends": True, "http_admin": ["u2", "p2"],
+                "files": {"u1": {"present": True, "pw": "p1", "set": 2, "adm": False}, "u2": {"present": True, "pw": "p2", "set": 1, "adm": True}}})
     results, events = af.run_scenarios(ctx, scs, "c01")
     before = len(ctx.violations)
     nval = af.judge(ctx, scs, results, events, "c01", "C01")
